@@ -470,5 +470,25 @@ def _shared_subscripts():
 PROGRAMS.update(_shared_subscripts())
 
 
+# session 6 (seeded C01-m12): a module global read by f, and a LATER script function made by a factory whose closure variable has
+# the same name: decorating the second one must not change what f reads (its own module globals), eagerly or as a model
+PROGRAMS["global_then_closure_of_the_same_name"] = """
+factor = 10.0
+
+@script(default_opset=op)
+def f(x: FLOAT[3]) -> FLOAT[3]:
+    return op.Mul(x, factor)
+
+def make(factor):
+    @script(default_opset=op)
+    def inner(y: FLOAT[3]) -> FLOAT[3]:
+        return op.Add(y, factor)
+    return inner
+
+g3 = make(3.0)
+INPUTS = [dict(x=np.array([1, 2, 3], dtype=np.float32))]
+"""
+
+
 def sources():
     return {name: HEADER + body for name, body in PROGRAMS.items()}
